@@ -8,7 +8,7 @@ package imagemeta
 
 // Entry points: the only precondition is a non-nil reader (what the API documents).
 //@ func DecodeTiff
-//@   props C01 C02
+//@   props C01 C02 C06
 //@   entry
 //@   requires r != nil
 
@@ -23,22 +23,22 @@ package imagemeta
 //@   requires r != nil
 
 //@ func DecodePng
-//@   props C01 C02
+//@   props C01 C02 C06
 //@   entry
 //@   requires r != nil
 
 //@ func DecodeJPEG
-//@   props C01 C02
+//@   props C01 C02 C06
 //@   entry
 //@   requires r != nil
 
 //@ func Decode
-//@   props C01 C02
+//@   props C01 C02 C06
 //@   entry
 //@   requires r != nil
 
 //@ func DecodeCR3
-//@   props C01 C02 C11
+//@   props C01 C02 C11 C06
 //@   entry
 //@   requires r != nil
 
